@@ -743,9 +743,9 @@ func TestVerifC10(t *testing.T) {
 	for h := 0; h < nHist; h++ {
 		w := vc10Open(t, t.Name()+"-h"+string(rune('a'+h%26))+string(rune('a'+h/26)))
 		w.st = st
-		total := 4 + r.Intn(12)
-		opsPerRound := 1 + r.Intn(4)
-		kvPerRound := 1 + r.Intn(5)
+		total := 5 + r.Intn(14)
+		opsPerRound := 2 + r.Intn(4)
+		kvPerRound := 2 + r.Intn(4)
 		for len(w.rounds) < total {
 			w.addRound(w.genRound(r, opsPerRound, kvPerRound))
 			n := len(w.rounds)
